@@ -708,6 +708,12 @@ func (b *bitstream) readNsecs(length uint64) (int, bool, uint8, error) {
 		return 0, false, 0, err
 	}
 
+	if _, exp := d.CoEx(); exp > math.MaxInt32-9 {
+		// Scaling to nanoseconds would push the exponent out of range (ShiftL panics).
+		msg := fmt.Sprintf("invalid timestamp fraction: %v", d)
+		return 0, false, 0, &SyntaxError{msg, b.pos}
+	}
+
 	nsec, err := d.ShiftL(9).trunc()
 	if err != nil || nsec < 0 || nsec > 999999999 {
 		msg := fmt.Sprintf("invalid timestamp fraction: %v", d)
